@@ -75,6 +75,10 @@ def _value(rng, tag, i):
 def gen(rng, tier):
     n = 0
     reps = 4 if tier == "quick" else 8
+    # settings that cannot be read back from a fresh Config (annotation-only / write-only): every loader must still apply them
+    for k in range(3 if tier == "quick" else 8):
+        yield {"family": "loaders.special", "kind": "special", "key": "application_path", "value": "pkg%d.mod:app" % k}
+        yield {"family": "loaders.special", "kind": "special", "key": "cert_reqs", "value": rng.choice([0, 1, 2])}
     for key, (tag, flag) in KEYS.items():
         for i in range(reps):
             n += 1
@@ -215,6 +219,41 @@ def run_one(case, tally):
                 if diff:
                     findings.append({"clause": "loaders-agree", "sig": "C19.loader/%s/%s" % (name, sorted(diff)[0]),
                                      "detail": "%s=%r: loader %s differs from mapping in %r" % (key, value, name, diff)})
+        elif kind == "special":
+            key, value = case["key"], case["value"]
+            import warnings
+
+            def load_all():
+                out = {}
+                out["mapping"] = Config.from_mapping({key: value})
+                out["kwargs"] = Config.from_mapping(**{key: value})
+                out["object"] = Config.from_object(types.SimpleNamespace(**{key: value}))
+                pyf = os.path.join(tmp, "conf.py")
+                with open(pyf, "w") as f:
+                    f.write("%s = %r\n" % (key, value))
+                out["pyfile"] = Config.from_pyfile(pyf)
+                tf = os.path.join(tmp, "conf.toml")
+                with open(tf, "w") as f:
+                    f.write("%s = %s\n" % (key, _toml_value(value)))
+                out["toml"] = Config.from_toml(tf)
+                out["cli-config-file"] = _run_main(["cliapp:app", "-c", tf])
+                return out
+
+            with warnings.catch_warnings():
+                warnings.simplefilter("ignore")
+                cfgs = load_all()
+                direct = Config()
+                setattr(direct, key, value)
+            tally.clause("loaders-agree")
+            attr = "verify_mode" if key == "cert_reqs" else key
+            want = repr(getattr(direct, attr))
+            for name, cfg in cfgs.items():
+                if name == "cli-config-file" and key == "application_path":
+                    continue  # the positional argument wins by design
+                got = repr(getattr(cfg, attr, "<unset>"))
+                if got != want:
+                    findings.append({"clause": "loaders-agree", "sig": "C19.loader/%s/%s" % (name, key),
+                                     "detail": "%s=%r through %s gives %s=%s; assigning it directly gives %s" % (key, value, name, attr, got, want)})
         elif kind == "cli":
             base = snapshot(_run_main(["app:app"]))
             argv = ["app:app"]
